@@ -132,7 +132,7 @@ P('C09', claimed=True, level='proof',
               'finite-set cardinality axioms, dict/itertools.count models. __iter__ is a generator: '
               'bounded only. Priorities are finite reals.'))
 
-P('C10', claimed=True, level='other', contracts=['base_clock_sched', 'base_rng'], drivers=['vf.drivers.C10'],
+P('C10', claimed=True, level='other', contracts=['base_clock_sched', 'base_rng', 'base_stream', 'base_oscinterface'], drivers=['vf.drivers.C10'],
   level_text=('The mode switch refines one contract: for SystemClock.sched/sched_abs, TempoClock.sched/'
               'sched_abs and AppClock.sched (NRT) both branches are proved to schedule the same task at the '
               'same logical time, and the NRT wake-up re-schedules at scheduled time + delta through the '
